@@ -308,3 +308,25 @@ func (e *engine) isTargetPkg(path string) bool {
 	}
 	return false
 }
+
+// waitWithoutLocks: WaitGroup.Wait blocks until other goroutines are done; a mutex this function has taken and
+// still holds at that point is held for as long as they run - if one of them needs it, neither side ever
+// proceeds (Close holding the lock over wg.Wait while the worker's loop takes the read lock). The obligation is
+// that every mutex is as it was on entry when the wait starts. A function that waits under a lock the waited-for
+// goroutines provably never take says so: `waits_holding <reason>` (listed).
+func (v *vc) waitWithoutLocks(fr *frame, st *state, site string) {
+	if v.fc == nil || !v.fc.sweep || !fr.top || v.entry == nil {
+		return
+	}
+	if v.fc.waitsHolding != "" {
+		v.trusted[fmt.Sprintf("assumed in contract of %s: the goroutines it waits for never take the lock it holds meanwhile (%s)", v.fnName, v.fc.waitsHolding)] = true
+		return
+	}
+	for _, g := range balGhostKeys(st) {
+		e0, ok := v.entry.ghost[g]
+		if !ok || e0 == st.ghost[g] {
+			continue
+		}
+		v.oblige(st, "guard", "waits_for_goroutines_without_holding_"+strings.TrimPrefix(g, balPrefix), site, fmt.Sprintf("(= %s %s)", st.ghost[g], e0), []string{"C19"})
+	}
+}
